@@ -25,7 +25,7 @@ import coqio as C
 import gen_c15 as G
 
 PROP = "C15"
-RULE = ("seeded random histories of <=6 operations over two files from {create(a|w) at /,/x,/x/y,/z; cp; mv; ln hard/soft/external; "
+RULE = ("seeded random histories of <=6 operations over two files from {create(a|w) at /,/x,/c2/y,/z; cp; mv; ln hard/soft/external; "
         "overwrite flag; re-create; unrelated root/group attribute}, sources drawn from the collections existing at that point "
         "(second stream: arbitrary, mostly missing, sources), API and CLI, URIs with/without leading slash, plus a fixed corpus "
         "(known findings D14a-c, fixed D5, root-destination, aliasing, move-into-subtree cases); non-trivial = history with >=2 "
@@ -37,8 +37,8 @@ ASSUMPTIONS = ["exception classes raised by h5py for the modelled failures are t
 RESIDUE = ["HDF5's own semantics are modelled, not verified", "external links are explored from file B into file A only (mutual external links hit HDF5 file-handle conflicts outside the model)", "file truncation by overwrite=True is the documented behaviour and is modelled as such",
            "concurrent access / locking is not modelled"]
 
-PATHS = ["/", "/x", "/x/y", "/z"]
-PROBES = ["/", "/x", "/x/y", "/z", "/z/y", "/x/x", "/x/y/y", "/x/y/x", "/nope", "/x/nope", "/x/bins", "/x/pixels/count",
+PATHS = ["/", "/c2", "/c2/y", "/c10"]
+PROBES = ["/", "/c2", "/c2/y", "/c10", "/c10/y", "/c2/c2", "/c2/y/y", "/c2/y/c2", "/nope", "/c2/nope", "/c2/bins", "/c2/pixels/count",
           "/y", "/e", "/a", "/a/b"]
 STD_ATTRS = ("bin-size", "bin-type", "format", "format-version", "genome-assembly", "metadata", "nbins", "nchroms",
              "nnz", "storage-mode", "sum")
@@ -361,7 +361,7 @@ def gen_op(rng, S, step, stream):
         return {"op": "setattr", "f": f, "p": tgt, "key": rng.choice(["note", "lab"]), "val": rng.choice(["keep me", 7, "x"])}
     kind = rng.choice(["cp", "cp", "cp", "mv", "mv", "ln", "ln", "lns", "lns", "lns"])
     if stream == "missing" and rng.random() < 0.6:
-        sf, sp = rng.choice(G.FILES), rng.choice(PATHS + ["/nope", "/x/nope"])
+        sf, sp = rng.choice(G.FILES), rng.choice(PATHS + ["/nope", "/c2/nope"])
     else:
         sf, sp = rng.choice(colls)
     same = rng.random() < (0.8 if kind in ("mv", "ln") else 0.5)
@@ -485,33 +485,33 @@ def corpus():
     return [
         # known findings D14a, D14b, D14c (exercised on every run)
         ("D14a hard link to an ancestor", [c(A, "/", 1), o("ln", A, "/", A, "/a/b")]),
-        ("D14a soft link to an ancestor", [c(A, "/x", 2), o("lns", A, "/x", A, "/x/y")]),
-        ("D14b external link", [c(A, "/x", 3), o("lns", A, "/x", B, "/e")]),
-        ("D14c dangling soft link after mv", [c(A, "/x", 4), o("lns", A, "/x", A, "/y"), o("mv", A, "/x", A, "/z")]),
-        ("D14c dangling external link after re-create w", [c(A, "/x", 5), o("lns", A, "/x", B, "/x"), c(A, "/z", 6, "w")]),
+        ("D14a soft link to an ancestor", [c(A, "/c2", 2), o("lns", A, "/c2", A, "/c2/y")]),
+        ("D14b external link", [c(A, "/c2", 3), o("lns", A, "/c2", B, "/e")]),
+        ("D14c dangling soft link after mv", [c(A, "/c2", 4), o("lns", A, "/c2", A, "/y"), o("mv", A, "/c2", A, "/c10")]),
+        ("D14c dangling external link after re-create w", [c(A, "/c2", 5), o("lns", A, "/c2", B, "/c2"), c(A, "/c10", 6, "w")]),
         # fixed D25: is_cooler on a dangling soft link / below a soft link whose target path has a missing component / below a loop
         ("D25 regression: is_cooler on and below unresolvable links",
-         [c(A, "/x/y", 4), o("lns", A, "/x/y", A, "/z"), o("mv", A, "/x", A, "/a"), o("lns", A, "/x", A, "/x")]),
+         [c(A, "/c2/y", 4), o("lns", A, "/c2/y", A, "/c10"), o("mv", A, "/c2", A, "/a"), o("lns", A, "/c2", A, "/c2")]),
         ("soft link created below an external link lands in the other file",
-         [c(A, "/x/y", 4), c(B, "/z", 5), o("lns", A, "/x/y", B, "/x"), o("lns", B, "/z", B, "/x/y")]),
-        # fixed D5: is_cooler on non-existent paths is False (probes /nope, /x/nope on every step)
-        ("D5 regression", [c(A, "/x", 7), c(B, "/", 8)]),
+         [c(A, "/c2/y", 4), c(B, "/c10", 5), o("lns", A, "/c2/y", B, "/c2"), o("lns", B, "/c10", B, "/c2/y")]),
+        # fixed D5: is_cooler on non-existent paths is False (probes /nope, /c2/nope on every step)
+        ("D5 regression", [c(A, "/c2", 7), c(B, "/", 8)]),
         # root destination, occupied destinations, cross-file hard link, overwrite
-        ("cross-file cp to the root of a new file and again", [c(A, "/x", 1), c(A, "/x/y", 2), o("cp", A, "/x", B, "/"), o("cp", A, "/x", B, "/")]),
-        ("cross-file cp to the root of a file that has /y", [c(A, "/x", 1), c(A, "/x/y", 2), c(B, "/y", 3), o("cp", A, "/x", B, "/")]),
-        ("occupied destinations", [c(A, "/x", 1), c(A, "/z", 2), o("cp", A, "/x", A, "/z"), o("ln", A, "/x", A, "/z"), o("lns", A, "/x", A, "/z"), o("mv", A, "/x", A, "/z")]),
-        ("cross-file hard link / overwrite", [c(A, "/x", 1), c(B, "/z", 2), o("ln", A, "/x", B, "/y"), o("ln", A, "/x", B, "/y", ow=True), o("cp", A, "/x", B, "/y", ow=True)]),
-        ("same-file overwrite", [c(A, "/x", 1), o("cp", A, "/x", A, "/z", ow=True), o("mv", A, "/x", A, "/z", ow=True)]),
-        ("more than one flag", [c(A, "/x", 1), {"op": "_copy", "sf": A, "sp": "/x", "df": A, "dp": "/z", "link": True, "rename": True, "soft": False}]),
-        ("aliasing: append-create below a hard-linked group", [c(A, "/z", 1), o("ln", A, "/z", A, "/x"), c(A, "/x/y", 2), o("mv", A, "/x", A, "/x/y")]),
-        ("move into own subtree", [c(A, "/x", 1), o("mv", A, "/x", A, "/x/y")]),
-        ("move of the root collection", [c(A, "/", 1), o("mv", A, "/", A, "/x")]),
-        ("copy of root into itself, nested", [c(A, "/", 1), o("cp", A, "/", A, "/x/y"), o("cp", A, "/x", A, "/z")]),
-        ("re-create over links", [c(A, "/z", 1), o("lns", A, "/z", A, "/x"), c(A, "/x/y", 2), c(A, "/x", 3), o("ln", A, "/z", A, "/x/y")]),
-        ("re-create replaces nested, w truncates", [c(A, "/x", 1), c(A, "/x/y", 2), c(A, "/", 3), c(A, "/x", 4), c(A, "/z", 5, "w")]),
-        ("unrelated attribute survives", [c(A, "/", 1), {"op": "setattr", "f": A, "p": "/", "key": "note", "val": "keep me"}, c(A, "/x", 2), c(A, "/", 3), o("cp", A, "/x", A, "/z")]),
-        ("missing sources", [c(A, "/x", 1), o("cp", A, "/nope", A, "/z"), o("mv", A, "/nope", A, "/z"), o("ln", A, "/nope", A, "/z"), o("cp", A, "/nope", B, "/z"), o("cp", B, "/x", A, "/z")]),
-        ("cli", [c(A, "/x", 1), o("cp", A, "/x", A, "/z", via="cli"), o("mv", A, "/z", A, "/x/y", via="cli"), o("ln", A, "/x", B, "/x", via="cli"), o("lns", A, "/x", B, "/x", via="cli"), o("ln", A, "/x", A, "/z", via="cli", s1=False, s2=False)]),
+        ("cross-file cp to the root of a new file and again", [c(A, "/c2", 1), c(A, "/c2/y", 2), o("cp", A, "/c2", B, "/"), o("cp", A, "/c2", B, "/")]),
+        ("cross-file cp to the root of a file that has /y", [c(A, "/c2", 1), c(A, "/c2/y", 2), c(B, "/y", 3), o("cp", A, "/c2", B, "/")]),
+        ("occupied destinations", [c(A, "/c2", 1), c(A, "/c10", 2), o("cp", A, "/c2", A, "/c10"), o("ln", A, "/c2", A, "/c10"), o("lns", A, "/c2", A, "/c10"), o("mv", A, "/c2", A, "/c10")]),
+        ("cross-file hard link / overwrite", [c(A, "/c2", 1), c(B, "/c10", 2), o("ln", A, "/c2", B, "/y"), o("ln", A, "/c2", B, "/y", ow=True), o("cp", A, "/c2", B, "/y", ow=True)]),
+        ("same-file overwrite", [c(A, "/c2", 1), o("cp", A, "/c2", A, "/c10", ow=True), o("mv", A, "/c2", A, "/c10", ow=True)]),
+        ("more than one flag", [c(A, "/c2", 1), {"op": "_copy", "sf": A, "sp": "/c2", "df": A, "dp": "/c10", "link": True, "rename": True, "soft": False}]),
+        ("aliasing: append-create below a hard-linked group", [c(A, "/c10", 1), o("ln", A, "/c10", A, "/c2"), c(A, "/c2/y", 2), o("mv", A, "/c2", A, "/c2/y")]),
+        ("move into own subtree", [c(A, "/c2", 1), o("mv", A, "/c2", A, "/c2/y")]),
+        ("move of the root collection", [c(A, "/", 1), o("mv", A, "/", A, "/c2")]),
+        ("copy of root into itself, nested", [c(A, "/", 1), o("cp", A, "/", A, "/c2/y"), o("cp", A, "/c2", A, "/c10")]),
+        ("re-create over links", [c(A, "/c10", 1), o("lns", A, "/c10", A, "/c2"), c(A, "/c2/y", 2), c(A, "/c2", 3), o("ln", A, "/c10", A, "/c2/y")]),
+        ("re-create replaces nested, w truncates", [c(A, "/c2", 1), c(A, "/c2/y", 2), c(A, "/", 3), c(A, "/c2", 4), c(A, "/c10", 5, "w")]),
+        ("unrelated attribute survives", [c(A, "/", 1), {"op": "setattr", "f": A, "p": "/", "key": "note", "val": "keep me"}, c(A, "/c2", 2), c(A, "/", 3), o("cp", A, "/c2", A, "/c10")]),
+        ("missing sources", [c(A, "/c2", 1), o("cp", A, "/nope", A, "/c10"), o("mv", A, "/nope", A, "/c10"), o("ln", A, "/nope", A, "/c10"), o("cp", A, "/nope", B, "/c10"), o("cp", B, "/c2", A, "/c10")]),
+        ("cli", [c(A, "/c2", 1), o("cp", A, "/c2", A, "/c10", via="cli"), o("mv", A, "/c10", A, "/c2/y", via="cli"), o("ln", A, "/c2", B, "/c2", via="cli"), o("lns", A, "/c2", B, "/c2", via="cli"), o("ln", A, "/c2", A, "/c10", via="cli", s1=False, s2=False)]),
     ]
 
 
